@@ -32,6 +32,7 @@ CONSTANTS Apis,        \* subset of {"class", "func"}
           HLen,        \* history length
           HNs, HVns,   \* npts / vnpts values of the histories (0 = keyword not passed)
           WrapLen,     \* atbound: arrays of length 1..WrapLen
+          DIdx, MIdx, SIdx, LonIdx,   \* subsets of the domains of the field tables / the longitude table
           DoExport,
           FixedLoop, FixedDv, FixedDm, FixedCache       \* FALSE: the mechanism as found / a deviating cache
 
@@ -321,13 +322,13 @@ ChooseFn ==
           (fn = "dec" => hrs) /\ cc' = [kind |-> "parse", fn |-> fn, hours |-> hrs, chars |-> <<>>, lvl |-> 0]
     /\ phase' = "parse" /\ UNCHANGED <<args, zp, dsp, mech, hist>>
 ChooseD == /\ phase = "parse" /\ cc.lvl = 0
-           /\ \E i \in DOMAIN DTab : cc' = [cc EXCEPT !.chars = DTab[i], !.lvl = 1]
+           /\ \E i \in DIdx : cc' = [cc EXCEPT !.chars = DTab[i], !.lvl = 1]
            /\ UNCHANGED <<phase, args, zp, dsp, mech, hist>>
 ChooseM == /\ phase = "parse" /\ cc.lvl = 1
-           /\ \E i \in DOMAIN MTab : cc' = [cc EXCEPT !.chars = Join(@, MTab[i]), !.lvl = 2]
+           /\ \E i \in MIdx : cc' = [cc EXCEPT !.chars = Join(@, MTab[i]), !.lvl = 2]
            /\ UNCHANGED <<phase, args, zp, dsp, mech, hist>>
 ChooseS == /\ phase = "parse" /\ cc.lvl = 2
-           /\ \E i \in DOMAIN STab : cc' = [cc EXCEPT !.chars = Join(@, STab[i]), !.lvl = 3]
+           /\ \E i \in SIdx : cc' = [cc EXCEPT !.chars = Join(@, STab[i]), !.lvl = 3]
            /\ UNCHANGED <<phase, args, zp, dsp, mech, hist>>
 ChooseExtra == /\ phase = "parse" /\ cc.lvl = 3 /\ Len(cc.chars) <= 9                   \* a fourth field: silent
                /\ cc' = [cc EXCEPT !.chars = Join(@, <<"1">>), !.lvl = 4]
@@ -374,7 +375,7 @@ LonTab == <<0, 30, 45, 90, 180, 270, 360>>
 LatSeq == <<-90, -30, 0, 30, 90>>
 ChooseLon ==
     /\ phase = "start"
-    /\ \E i \in DOMAIN LonTab, j \in DOMAIN LonTab, sh \in {0, 360} :
+    /\ \E i \in LonIdx, j \in LonIdx, sh \in {0, 360} :
           cc' = [kind |-> "area", lon1 |-> LonTab[i] - sh, lon2 |-> LonTab[j] - sh, lat1 |-> 0, lat2 |-> 0]
     /\ phase' = "lon" /\ UNCHANGED <<args, zp, dsp, mech, hist>>
 ChooseLat ==
@@ -456,6 +457,24 @@ ChooseAitoff ==
     /\ \E i \in 0..24, j \in 0..12 : cc' = [kind |-> "aitoff", ra |-> 15 * i, dec |-> 15 * j - 90]
     /\ phase' = "aitoff" /\ UNCHANGED <<args, zp, dsp, mech, hist>>
 
+\* ---- cases chosen outside the model (seeded sample): TLC derives their exact side ------------------
+FileCases == ndJsonDeserialize(IOEnv.CASE_FILE)
+FBlock == 128
+ChooseFileBlock ==
+    /\ phase = "start"
+    /\ \E bk \in 1..((Len(FileCases) + FBlock - 1) \div FBlock) : mech' = [mech EXCEPT !.n = bk]
+    /\ phase' = "fblock" /\ UNCHANGED <<args, zp, dsp, hist, cc>>
+ChooseFileCase ==
+    /\ phase = "fblock"
+    /\ \E t \in ((mech.n - 1) * FBlock + 1)..VMin2(mech.n * FBlock, Len(FileCases)) :
+          LET f == FileCases[t] IN
+          IF f.t = "pscalar"
+          THEN args' = f.args /\ zp' = <<f.a, f.b>> /\ phase' = "z" /\ cc' = cc
+          ELSE cc' = [kind |-> "parse", fn |-> f.c.fn, hours |-> f.c.hours, chars |-> f.c.chars, lvl |-> 1]
+               /\ phase' = "parse" /\ args' = args /\ zp' = zp
+    /\ mech' = [mech EXCEPT !.i = 0] /\ UNCHANGED <<dsp, hist>>
+NextFile == ChooseFileBlock \/ ChooseFileCase
+
 Next == NextScalar \/ NextDispatch \/ NextHist \/ NextParse \/ NextArea \/ NextWrap \/ ChooseAitoff
 NextCoords == NextParse \/ NextArea \/ NextWrap \/ ChooseAitoff
 NextCoordsExport == NextParse \/ NextArea \/ NextWrapExport \/ ChooseAitoff
@@ -466,9 +485,8 @@ CaseOf(a, z1, z2, k) ==
 OutsFor(a, z1, z2) ==
     [k \in DOMAIN PNormalise(a.api, a) |->
         [p |-> PNormalise(a.api, a)[k], der |-> CDerived(PNormalise(a.api, a)[k], z1, z2), need |-> PNeeded(CaseOf(a, z1, z2, k))]]
-NVUsed == {<<PNpts(NVTab[k][1]), PVnpts(NVTab[k][2])>> : k \in NVIdx}
-ExportIdent == (DoExport /\ phase = "start") =>
-    \A nv \in NVUsed : PrintT(<<"IDENT", ToJson([n |-> nv[1], vn |-> nv[2], cat |-> PCatalogue(nv[1], nv[2])])>>)
+\* one catalogue with the numbers of points left symbolic (they only occur as the first component of "gl" nodes)
+ExportIdent == (DoExport /\ phase = "start") => PrintT(<<"IDENT", ToJson(PCatalogue("npts", "vnpts"))>>)
 ExportCtor == (DoExport /\ phase = "args") =>
     PrintT(<<"CASE", ToJson([t |-> "pctor", api |-> args.api, args |-> args, n |-> args.n, vn |-> args.vn])>>)
 ExportScalar ==
@@ -481,12 +499,14 @@ ExportDispatch == (DoExport /\ phase = "shaped") =>
                               allowed |-> PDispatchSet(dsp.sa, dsp.sb)])>>)
 ExportHist == (DoExport /\ phase = "hist" /\ Len(hist) = HLen) =>
     PrintT(<<"CASE", ToJson([t |-> "phist", events |-> hist])>>)
+ExportFile == ExportScalar /\ ((DoExport /\ IsParse) =>
+          PrintT(<<"CASE", ToJson([t |-> "parse", c |-> ParseCase, spec |-> PParseSpec(ParseCase)])>>))
 ExportCoords ==
     /\ (DoExport /\ IsParse) =>
           PrintT(<<"CASE", ToJson([t |-> "parse", c |-> ParseCase, spec |-> PParseSpec(ParseCase)])>>)
     /\ (DoExport /\ phase = "area") =>
           PrintT(<<"CASE", ToJson([t |-> "area", c |-> [lon1 |-> cc.lon1, lon2 |-> cc.lon2, lat1 |-> cc.lat1, lat2 |-> cc.lat2],
-                                    exp |-> PAreaQ(cc), mid |-> AreaMid(cc), latmid |-> AreaLatMid(cc)])>>)
+                                    exp |-> PAreaQ(cc), scale |-> PAreaScale(cc), mid |-> AreaMid(cc), latmid |-> AreaLatMid(cc)])>>)
     /\ (DoExport /\ phase = "wrap" /\ cc.pc = "raise") =>
           PrintT(<<"CASE", ToJson([t |-> "wrap", c |-> [vals |-> cc.vals, lo |-> cc.lo, hi |-> cc.hi]])>>)
     /\ (DoExport /\ phase = "wrap2") =>
